@@ -74,17 +74,8 @@ theorem C01_lib_roundtrip (fs : List Bytes) (hne : fs ≠ []) (h64 : ∀ f ∈ f
 theorem C01_lib_roundtrip_stream (ms : List (List Bytes)) (hne : ∀ m ∈ ms, m ≠ [])
     (h64 : ∀ m ∈ ms, ∀ f ∈ m, f.length < 2 ^ 64) :
     run Dec.framing (ms.map encodeMsg).flatten
-      = ⟨ms.map Item.message, none, none, Dec.framing, []⟩ := by
-  induction ms with
-  | nil => simpa [Dec.framing] using run_nil ⟨.header, []⟩ (by simp [DState.need])
-  | cons m ms ih =>
-    simp only [List.map_cons, List.flatten_cons]
-    have h := decode_encodeMsg m (hne m (by simp)) (h64 m (by simp)) [] (ms.map encodeMsg).flatten
-    simp only [List.nil_append] at h
-    rw [Dec.framing, run_item h]
-    have := ih (fun m' hm => hne m' (by simp [hm])) (fun m' hm => h64 m' (by simp [hm]))
-    rw [Dec.framing] at this
-    rw [this]
+      = ⟨ms.map Item.message, none, none, Dec.framing, []⟩ :=
+  run_encodeMsgs ms hne h64
 
 /-- The greeting: 64 bytes, signature, version, NUL-padded mechanism, zero filler — and the
 library's own greeting parser reads it back. -/
